@@ -312,6 +312,77 @@ pub fn load_known() -> KnownFindings {
     all
 }
 
+
+// ---------------------------------------------------------------------------------------------
+// crash guard (opt-in, for the memory-safety checks): a SIGSEGV / SIGBUS raised while a generated case is
+// running is memory corruption in the code under test, not an inconclusive run.  The case in flight is on
+// disk already; the handler prints the VIOLATION line for it and ends the process with exit 1.
+
+pub mod crashguard {
+    use std::{
+        cell::Cell,
+        sync::atomic::{AtomicBool, AtomicUsize, Ordering},
+    };
+
+    thread_local! {
+        /// (pointer, length) of the preformatted lines for the case in flight on this thread; null = not armed
+        static LINE: Cell<(*const u8, usize)> = const { Cell::new((std::ptr::null(), 0)) };
+        static TID: Cell<usize> = const { Cell::new(usize::MAX) };
+    }
+    static INSTALLED: AtomicBool = AtomicBool::new(false);
+    static NEXT_TID: AtomicUsize = AtomicUsize::new(0);
+
+    extern "C" fn on_fault(sig: libc::c_int, _info: *mut libc::siginfo_t, _ctx: *mut libc::c_void) {
+        let (p, n) = LINE.with(|l| l.get());
+        // SAFETY: async-signal-safe calls only (write, signal, raise, _exit); the buffer is leaked, never freed
+        unsafe {
+            if p.is_null() {
+                // not inside a generated case: default action (the driver reports exit 2)
+                libc::signal(sig, libc::SIG_DFL);
+                libc::raise(sig);
+                return;
+            }
+            let _ = libc::write(1, p.cast(), n);
+            libc::_exit(1);
+        }
+    }
+
+    pub fn install() {
+        if INSTALLED.swap(true, Ordering::SeqCst) {
+            return;
+        }
+        // SAFETY: plain sigaction; SA_ONSTACK uses the alternate stack std registers for every thread
+        unsafe {
+            let mut sa: libc::sigaction = std::mem::zeroed();
+            sa.sa_sigaction = on_fault as *const () as usize;
+            sa.sa_flags = libc::SA_SIGINFO | libc::SA_ONSTACK;
+            libc::sigemptyset(&mut sa.sa_mask);
+            libc::sigaction(libc::SIGSEGV, &sa, std::ptr::null_mut());
+            libc::sigaction(libc::SIGBUS, &sa, std::ptr::null_mut());
+        }
+    }
+
+    /// A small per-thread number (file names of the in-flight cases).
+    pub fn thread_no() -> usize {
+        TID.with(|t| {
+            if t.get() == usize::MAX {
+                t.set(NEXT_TID.fetch_add(1, Ordering::SeqCst));
+            }
+            t.get()
+        })
+    }
+
+    pub fn arm(lines: &'static [u8]) {
+        LINE.with(|l| l.set((lines.as_ptr(), lines.len())));
+    }
+
+    pub fn disarm() {
+        LINE.with(|l| l.set((std::ptr::null(), 0)));
+    }
+}
+
+pub const CRASH_SIGNATURE: &str = "memory fault (SIGSEGV/SIGBUS) in the code under test";
+
 // ---------------------------------------------------------------------------------------------
 // replay files
 
@@ -355,6 +426,8 @@ pub struct Report<'a> {
     known_printed: HashSet<String>,
     replay: Option<ReplayFile>,
     replay_ran: bool,
+    /// see [`crashguard`]; switched on by the memory-safety checks
+    pub crash_guard: bool,
 }
 
 #[derive(Default)]
@@ -422,6 +495,7 @@ impl<'a> Report<'a> {
             known_printed: HashSet::new(),
             replay,
             replay_ran: false,
+            crash_guard: false,
         }
     }
 
@@ -456,8 +530,65 @@ impl<'a> Report<'a> {
         M: Fn() -> S + Sync,
         F: Fn(&T, &mut CaseInfo) -> CheckResult + Sync,
     {
+        let guard = self.crash_guard;
+        if guard {
+            crashguard::install();
+        }
+        let g_prop = self.ctx.prop.clone();
+        let g_seed = self.ctx.seed;
+        let g_part = name.to_string();
+        let g_replay: Option<PathBuf> = if self.replay.is_some() { self.ctx.replay.clone() } else { None };
+        let g_dir = root().join("replays").join(&self.ctx.prop);
+        // per thread and part: the file the case in flight is written to and the lines the handler prints
+        thread_local! {
+            static SLOT: RefCell<Option<(String, PathBuf, &'static [u8])>> = const { RefCell::new(None) };
+        }
+        let arm = |case: &T| {
+            let (path, lines) = SLOT.with(|s| {
+                let mut s = s.borrow_mut();
+                if s.as_ref().is_none_or(|x| x.0 != g_part) {
+                    let path = match &g_replay {
+                        Some(p) => p.clone(),
+                        None => g_dir.join(format!("crash-{}-t{}.json", g_part, crashguard::thread_no())),
+                    };
+                    let text = format!(
+                        "failure: part={} signature={}\nVIOLATION property={} replay={}\n",
+                        g_part,
+                        CRASH_SIGNATURE,
+                        g_prop,
+                        path.display()
+                    );
+                    *s = Some((g_part.clone(), path, Box::leak(text.into_bytes().into_boxed_slice())));
+                }
+                let x = s.as_ref().unwrap();
+                (x.1.clone(), x.2)
+            });
+            if g_replay.is_none() {
+                let _ = std::fs::create_dir_all(&g_dir);
+                let rf = ReplayFile {
+                    property: g_prop.clone(),
+                    part: g_part.clone(),
+                    seed: g_seed,
+                    signature: CRASH_SIGNATURE.into(),
+                    detail: "the process received SIGSEGV or SIGBUS while this case was running".into(),
+                    case: serde_json::to_value(case).unwrap_or(Value::Null),
+                };
+                let _ = std::fs::write(&path, serde_json::to_vec(&rf).unwrap_or_default());
+            }
+            crashguard::arm(lines);
+        };
+        let disarm_and_clean = || {
+            crashguard::disarm();
+        };
         let run_one = |case: &T, info: &mut CaseInfo| -> CheckResult {
-            match catch(|| f(case, info)) {
+            if guard {
+                arm(case);
+            }
+            let r = catch(|| f(case, info));
+            if guard {
+                disarm_and_clean();
+            }
+            match r {
                 Ok(r) => r,
                 Err((msg, loc)) => {
                     let m: String = msg.chars().take(120).collect();
@@ -579,6 +710,8 @@ impl<'a> Report<'a> {
                 let results = &results;
                 let run_one = &run_one;
                 let known_sigs = &known_sigs;
+                let self_prop = self.ctx.prop.clone();
+                let part_name = name.to_string();
                 std::thread::Builder::new()
                     .stack_size(64 << 20)
                     .spawn_scoped(sc, move || {
@@ -654,6 +787,11 @@ impl<'a> Report<'a> {
                                 std::process::exit(2);
                             }
                         };
+                        if guard {
+                            let _ = std::fs::remove_file(
+                                root().join("replays").join(&self_prop).join(format!("crash-{}-t{}.json", part_name, crashguard::thread_no())),
+                            );
+                        }
                         results.lock().unwrap().push((w, stats.into_inner(), fail));
                     })
                     .expect("spawn");
